@@ -220,30 +220,58 @@ func runC07(c *Ctx) {
 				}
 			}
 		}
+		// ... or a value of a repository type whose method of the remover interface does that, on the server it was
+		// built with - handed over as the value itself or as its bound method
+		viaRecord := func(al *ssa.Alloc, rm *ssa.Function) {
+			if rm == nil || rm.Blocks == nil || len(rm.Params) < 2 {
+				return
+			}
+			c.Saw(rm)
+			fs := FieldStores(filter, al)
+			for _, cc := range callsIn(rm) {
+				cv, ok := cc.(*ssa.Call)
+				if !ok {
+					continue
+				}
+				var recv, key ssa.Value
+				switch {
+				case cv.Call.StaticCallee() == remove && len(cv.Call.Args) == 2:
+					recv, key = cv.Call.Args[0], cv.Call.Args[1]
+				case cv.Call.IsInvoke() && cv.Call.Method.Name() == remove.Name() && len(cv.Call.Args) == 1:
+					// through the interface the server satisfies: the receiver decides (below)
+					recv, key = cv.Call.Value, cv.Call.Args[0]
+				default:
+					continue
+				}
+				if w.ExprIn(rm, key) != "p1" {
+					continue
+				}
+				// the server it is called on: a field of the receiver that filter set to its own receiver
+				onOwn := false
+				if ld, isLd := strip(recv).(*ssa.UnOp); isLd {
+					if fa, isFA := ld.X.(*ssa.FieldAddr); isFA && fa.X == ssa.Value(rm.Params[0]) {
+						if vs := fs[fieldName(fa.X.Type(), fa.Field)]; len(vs) == 1 && w.ExprIn(filter, vs[0]) == "p0" {
+							onOwn = true
+						}
+					}
+				}
+				u, has := ErrUseOf(cv)
+				if onOwn && has && (u.Tested || u.Direct) {
+					okRem = true
+				}
+			}
+		}
 		if al, ok := strip(pc.Call.Args[0]).(*ssa.Alloc); ok && !okRem {
-			// ... or a value of a repository type whose method of the remover interface does that, on the server it was
-			// built with
 			if T := derefNamedT(al.Type()); T != nil && w.InRepoType(T) {
-				if rm := w.methodOfNamed(T, "remove"); rm != nil && rm.Blocks != nil {
-					c.Saw(rm)
-					fs := FieldStores(filter, al)
-					for _, cc := range callsIn(rm) {
-						cv, ok := cc.(*ssa.Call)
-						if !ok || cv.Call.StaticCallee() != remove || len(cv.Call.Args) != 2 || w.ExprIn(rm, cv.Call.Args[1]) != "p1" {
-							continue
-						}
-						// the server it is called on: a field of the receiver that filter set to its own receiver
-						onOwn := false
-						if ld, isLd := strip(cv.Call.Args[0]).(*ssa.UnOp); isLd {
-							if fa, isFA := ld.X.(*ssa.FieldAddr); isFA && fa.X == ssa.Value(rm.Params[0]) {
-								if vs := fs[fieldName(fa.X.Type(), fa.Field)]; len(vs) == 1 && w.ExprIn(filter, vs[0]) == "p0" {
-									onOwn = true
-								}
-							}
-						}
-						u, has := ErrUseOf(cv)
-						if onOwn && has && (u.Tested || u.Direct) {
-							okRem = true
+				viaRecord(al, w.methodOfNamed(T, "remove"))
+			}
+		}
+		if mc, ok := w.canon(filter, pc.Call.Args[0]).(*ssa.MakeClosure); ok && !okRem && len(mc.Bindings) == 1 {
+			if bw, _ := mc.Fn.(*ssa.Function); bw != nil && strings.HasPrefix(bw.Synthetic, "bound method wrapper") {
+				if al, isAl := strip(mc.Bindings[0]).(*ssa.Alloc); isAl {
+					for _, cc := range callsIn(bw) {
+						if callee := cc.Common().StaticCallee(); callee != nil && w.InRepo(callee) {
+							viaRecord(al, callee)
 						}
 					}
 				}
